@@ -61,7 +61,7 @@ def check(prog, rep):
     if not hits:
         rep.ok("AUTOCOMMIT", "PeeweeStorage", "transaction constructs", f"0 in {scanned} functions", mi.relpath)
     # each statement is its own commit there: a single-event operation must therefore be ONE writing statement per path
-    rep.rule("PW-ATOMIC", "on the auto-committing store every path through insert_one / replace / replace_last / delete executes at most one writing statement (save / create / delete_instance / an executed insert-update-delete chain), directly or through the one self-method it delegates to: two statements are two commits, and a crash between them leaves a state that is no prefix of the issued writes")
+    rep.rule("PW-ATOMIC", "on the auto-committing store every path through insert_one / replace / replace_last / delete / create_bucket / update_bucket (one event, one bucket row: one elementary write) executes at most one writing statement (save / create / delete_instance / an executed insert-update-delete chain), directly or through the one self-method it delegates to: two statements are two commits, and a crash between them leaves a state that is no prefix of the issued writes")
     from ..cfg import cfg_of
 
     pcls = prog.cls("PeeweeStorage")
@@ -75,11 +75,11 @@ def check(prog, rep):
                     out.append(n)
                 elif a == "execute" and any(isinstance(x, ast.Call) and isinstance(x.func, ast.Attribute) and x.func.attr in ("delete", "update", "insert", "replace", "insert_many") for x in ast.walk(n.func.value)):
                     out.append(n)
-                elif isinstance(n.func.value, ast.Name) and n.func.value.id == "self" and a in ("insert_one", "replace", "replace_last", "delete", "insert_many"):
+                elif isinstance(n.func.value, ast.Name) and n.func.value.id == "self" and a in ("insert_one", "replace", "replace_last", "delete", "insert_many", "create_bucket", "update_bucket", "delete_bucket"):
                     out.append(n)
         return out
 
-    for m in ("insert_one", "replace", "replace_last", "delete"):
+    for m in ("insert_one", "replace", "replace_last", "delete", "create_bucket", "update_bucket"):
         fi = pcls.methods.get(m)
         if fi is None:
             continue
@@ -106,6 +106,7 @@ def check(prog, rep):
 SQ = "aw_datastore/storages/sqlite.py"
 PW = "aw_datastore/storages/peewee.py"
 VARIANTS = [
+    ("B peewee create_bucket writes the row and then its data in a second statement", PW, "            datastr=json.dumps(data or {}),\n        )\n        self.update_bucket_keys()\n", "            datastr=\"{}\",\n        )\n        self.update_bucket_keys()\n        if data:\n            self.update_bucket(bucket_id, data=data)\n", "PW-ATOMIC"),
     {"name": "B one threshold attribute for both modes: 1 when not lazy, tested with >", "edits": [(SQ, "        self.enable_lazy_commit = enable_lazy_commit\n", "        self.enable_lazy_commit = enable_lazy_commit\n        self.commit_threshold = 50 if enable_lazy_commit else 1\n"), (SQ, "        if self.enable_lazy_commit:\n            self.num_uncommitted_statements += num_statements\n            if self.num_uncommitted_statements > 50:\n                self.commit()\n            if (datetime.now() - self.last_commit) > timedelta(seconds=10):\n                self.commit()\n        else:\n            self.commit()\n", "        self.num_uncommitted_statements += num_statements\n        if self.num_uncommitted_statements > self.commit_threshold:\n            self.commit()\n        elif (datetime.now() - self.last_commit) > timedelta(seconds=10):\n            self.commit()\n")], "expect": "COMMIT-C"},
     {"name": "OK one threshold attribute for both modes: 0 when not lazy", "edits": [(SQ, "        self.enable_lazy_commit = enable_lazy_commit\n", "        self.enable_lazy_commit = enable_lazy_commit\n        self.commit_threshold = 50 if enable_lazy_commit else 0\n"), (SQ, "        if self.enable_lazy_commit:\n            self.num_uncommitted_statements += num_statements\n            if self.num_uncommitted_statements > 50:\n                self.commit()\n            if (datetime.now() - self.last_commit) > timedelta(seconds=10):\n                self.commit()\n        else:\n            self.commit()\n", "        self.num_uncommitted_statements += num_statements\n        if self.num_uncommitted_statements > self.commit_threshold:\n            self.commit()\n        elif (datetime.now() - self.last_commit) > timedelta(seconds=10):\n            self.commit()\n")], "expect": "ok"},
     ("B chunked bulk insert counts each chunk BEFORE writing it (last chunk never counted after it is written)", SQ, "        self.conn.executemany(query, event_rows)\n        self.conditional_commit(len(event_rows))\n", "        for i in range(0, len(event_rows), 100):\n            chunk = event_rows[i : i + 100]\n            self.conditional_commit(len(chunk))\n            self.conn.executemany(query, chunk)\n", "COMMIT-B"),
